@@ -181,7 +181,11 @@ func (v *PacketDslFormattor) VisitCalculatedFromAttribute(ctx *gen.CalculatedFro
 
 // VisitPaddingAttribute formats padding attribute
 func (v *PacketDslFormattor) VisitPaddingAttribute(ctx *gen.PaddingAttributeContext) interface{} {
-	return fmt.Sprintf("%s(%s)", ctx.PADDING_ATTR().GetText(), ctx.PADDING_CHAR().GetText())
+	padChar := ""
+	if ctx.PADDING_CHAR() != nil {
+		padChar = ctx.PADDING_CHAR().GetText()
+	}
+	return fmt.Sprintf("%s(%s)", ctx.PADDING_ATTR().GetText(), padChar)
 }
 
 // VisitOptionDefinition overrides the default implementation for option definitions.
